@@ -236,10 +236,26 @@ func init() {
 
 	// ---- fmt ----
 	registerIntrinsic("fmt.Sprintf", func(i *interpreter, fr *frame, fn *ssa.Function, a []value) value {
-		return i.sprintf(a[0].(string), a[1].([]value))
+		args := a[1].([]value)
+		if f := a[0].(string); len(args) == 1 && (f == "%d" || f == "%v") {
+			if it, ok := args[0].(iface); ok {
+				if s, ok := it.v.(symInt); ok {
+					return i.ctx.formatInt(i, s)
+				}
+			}
+		}
+		return i.sprintf(a[0].(string), args)
 	})
 	registerIntrinsic("fmt.Sprint", func(i *interpreter, fr *frame, fn *ssa.Function, a []value) value {
-		return fmt.Sprint(i.hostArgs(a[0].([]value))...)
+		args := a[0].([]value)
+		if len(args) == 1 {
+			if it, ok := args[0].(iface); ok {
+				if s, ok := it.v.(symInt); ok {
+					return i.ctx.formatInt(i, s)
+				}
+			}
+		}
+		return fmt.Sprint(i.hostArgs(args)...)
 	})
 	registerIntrinsic("fmt.Sprintln", func(i *interpreter, fr *frame, fn *ssa.Function, a []value) value {
 		return fmt.Sprintln(i.hostArgs(a[0].([]value))...)
@@ -357,7 +373,7 @@ type atomRef struct {
 }
 
 func (c *pathCtx) atom(idx int) atomRef {
-	name := fmt.Sprintf("vatom%d", idx)
+	name := fmt.Sprintf("§a%d", idx)
 	if a, ok := c.atoms[name]; ok {
 		return atomRef{name, a}
 	}
@@ -410,7 +426,7 @@ func (c *pathCtx) formatInt(i *interpreter, n symInt) value {
 	}
 	c.noEffect("fresh formatted integer")
 	c.fresh++
-	name := fmt.Sprintf("vfmt%d", c.fresh)
+	name := fmt.Sprintf("§f%d", c.fresh)
 	c.atoms[name] = &atomInfo{idx: -c.fresh, ok: trueT, val: n.t, canon: trueT}
 	c.atomOrd = append(c.atomOrd, name)
 	return name
